@@ -529,6 +529,48 @@ func c14Concurrency(c *Ctx, inputs []c14Input, seqOut [][]string, _ string) {
 		}(g)
 	}
 	wg.Wait()
+	// Distinct inputs per goroutine: cross-talk between instances only shows when the concurrent parsers work
+	// on DIFFERENT texts (with identical texts a shared scratch buffer is invisible). Each goroutine owns a
+	// strict and a non-strict parser and parses ASCII items of 1..200 bytes made of its own letter, with and
+	// without size hints (added after seeded change C14a-1 — a pooled buffer returned twice — was missed).
+	{
+		_, _ = c13SmlOutcome("all", true, "S1F1 W\n<A[100] \""+strings.Repeat("z", 100)+"\">\n.") // a large hinted item first
+		var wg2 sync.WaitGroup
+		for g := 0; g < 8; g++ {
+			wg2.Add(1)
+			go func(g int) {
+				defer wg2.Done()
+				letter := string(rune('a' + g))
+				for n := 0; n < c.Pick(400, 4000); n++ {
+					ln := 1 + (n*7+g)%200
+					val := strings.Repeat(letter, ln)
+					text := "S1F1 W\n<A \"" + val + "\">\n."
+					if n%3 == 0 {
+						text = fmt.Sprintf("S1F1 W\n<A[%d] \"%s\">\n.", ln, val)
+					}
+					for _, strict := range []bool{true, false} {
+						p := sml.NewParser(sml.WithParserStrictMode(strict))
+						msgs, err := p.Parse(text)
+						got := ""
+						if err == nil && len(msgs) == 1 {
+							if it, e := msgs[0].Item(); e == nil {
+								got, _ = it.ToASCII()
+							}
+						}
+						if got != val {
+							mu.Lock()
+							diffs++
+							if first == "" {
+								first = text + " -> " + got
+							}
+							mu.Unlock()
+						}
+					}
+				}
+			}(g)
+		}
+		wg2.Wait()
+	}
 	c.StatN("concurrent-parses", len(idx)*8)
 	c.Count("concurrency", true)
 	if diffs > 0 {
